@@ -1,0 +1,58 @@
+//go:build verif
+
+// Contracts for package coverage, checked by /verif/engine (gvc).  This file
+// contains comments only; it is compiled only with the "verif" build tag.
+package coverage
+
+// A coverage table is valid if the coverage indices are 0..n-1 in increasing
+// glyph order (OpenType chapter 2, "Coverage Table").
+//@ pred covValid(t Table) = (forall g uint16 :: has(t, g) ==> 0 <= t[g] && t[g] < len(t)) && (forall g1 uint16 :: forall g2 uint16 :: has(t, g1) && has(t, g2) && g1 < g2 ==> t[g1] < t[g2])
+// number of maximal runs of consecutive glyph IDs among rev[0:k]
+//@ spec nranges(rev []glyph.ID, k int) int = ite(k <= 0, 0, nranges(rev, k-1) + ite(k == 1 || rev[k-1] != rev[k-2] + 1, 1, 0))
+//@ spec covLen(rev []glyph.ID) int = ite(4 + 2*len(rev) <= 4 + 6*nranges(rev, len(rev)), 4 + 2*len(rev), 4 + 6*nranges(rev, len(rev)))
+
+//@ func (table Table) encInfo() (rev []glyph.ID, format1Length int, format2Length int)   props: C08 C01
+//@   requires covValid(table) && len(table) <= 65535
+//@   may_panic
+//@   ensures len(rev) == len(table) && fresh(rev) && off(rev) == 0
+//@   ensures forall g uint16 :: has(table, g) ==> rev[table[g]] == g
+//@   ensures forall i int :: 1 <= i && i < len(rev) ==> rev[i-1] < rev[i]
+//@   ensures format1Length == 4 + 2*len(rev) && format2Length == 4 + 6*nranges(rev, len(rev)) && 4 <= format2Length && format2Length <= 4 + 6*len(rev)
+//@   modifies nothing
+//@   loop 0
+//@     invariant len(rev) == len(table) && fresh(rev) && off(rev) == 0
+//@     invariant forall g uint16 :: seen(table, g) ==> rev[table[g]] == g
+//@   loop 1
+//@     invariant 1 <= i && len(rev) == len(table) && fresh(rev) && off(rev) == 0
+//@     invariant forall k int :: 1 <= k && k < i && k < len(rev) ==> rev[k-1] < rev[k]
+//@     invariant forall g uint16 :: has(table, g) ==> rev[table[g]] == g
+//@     decreases len(rev) - i
+//@   loop 2
+//@     invariant rangeCount == nranges(rev, iter) && 0 <= rangeCount && rangeCount <= iter && (iter > 0 ==> prev == rev[iter-1]) && (iter == 0 ==> prev == 65535)
+//@     invariant len(rev) == len(table) && fresh(rev) && off(rev) == 0
+//@     invariant forall k int :: 1 <= k && k < len(rev) ==> rev[k-1] < rev[k]
+//@     invariant forall g uint16 :: has(table, g) ==> rev[table[g]] == g
+
+//@ func (table Table) EncodeLen() (n int)   props: C08 C01
+//@   requires covValid(table) && len(table) <= 65535
+//@   modifies nothing
+//@   ensures n >= 4
+//@   return_assert n == ite(format1Length <= format2Length, format1Length, format2Length)
+
+// Encode: the number of bytes emitted equals the size computed by encInfo
+// (declared size == emitted size), format 1 lists the glyphs in order.
+//@ func (table Table) Encode() (res []byte)   props: C08 C01
+//@   requires covValid(table) && len(table) <= 65535
+//@   may_panic
+//@   ensures len(res) >= 4 && fresh(res)
+//@   return_assert len(res) == ite(format1Length <= format2Length, format1Length, format2Length)
+//@   return_assert format1Length <= format2Length ==> be16(res, 0) == 1 && be16(res, 2) == len(rev) && forall i int :: 0 <= i && i < len(rev) ==> be16(res, 4 + 2*i) == rev[i]
+//@   return_assert format1Length > format2Length ==> be16(res, 0) == 2 && be16(res, 2) == nranges(rev, len(rev))
+//@   modifies nothing
+//@   loop 0
+//@     invariant len(buf) == format1Length && format1Length == 4 + 2*len(rev) && fresh(buf) && off(buf) == 0 && be16(buf, 0) == 1 && be16(buf, 2) == len(rev)
+//@     invariant forall k int :: 0 <= k && k < iter ==> be16(buf, 4 + 2*k) == rev[k]
+//@   loop 1
+//@     invariant format2Length == 4 + 6*nranges(rev, len(rev)) && rangeCount == nranges(rev, len(rev)) && fresh(buf) && len(rev) >= 1
+//@     invariant len(buf) == 4 + 6*ite(iter > 0, nranges(rev, iter) - 1, 0) && (iter > 0 ==> prev == rev[iter-1]) && (iter == 0 ==> prev == 65535)
+//@     invariant be16(buf, 0) == 2 && be16(buf, 2) == rangeCount && 0 <= startCoverageIndex && startCoverageIndex <= iter
